@@ -6,6 +6,7 @@ package main
 
 import (
 	"fmt"
+	"go/ast"
 	"strings"
 	"go/constant"
 	"go/token"
@@ -80,7 +81,14 @@ func (e *Engine) newFrame(fn *ssa.Function, parent *Frame) *Frame {
 				if id, ok := d.Expr.(interface{ String() string }); ok {
 					_ = id
 				}
+				// only plain identifiers name variables; selector expressions (s.attributes) refer to fields
+				if _, isIdent := d.Expr.(*ast.Ident); !isIdent {
+					continue
+				}
 				if obj := d.Object(); obj != nil {
+					if v, isVar := obj.(*types.Var); isVar && v.IsField() {
+						continue
+					}
 					f.names[obj.Name()] = append(f.names[obj.Name()], d)
 				}
 			}
